@@ -64,6 +64,8 @@ func genConcCase(rng *simrt.Rng, o *ConcOpts) *ConcCase {
 		}
 	}
 	nt := o.Tasks[0] + rng.Intn(o.Tasks[1]-o.Tasks[0]+1)
+	roundLen := 2 + rng.Intn(5)
+	rounds := 0
 	for t := 0; t < nt; t++ {
 		g := NewOpGen(rng, cfg, &prof)
 		g.nextID = 32 + (t+1)*100_000*32
@@ -80,6 +82,9 @@ func genConcCase(rng *simrt.Rng, o *ConcOpts) *ConcCase {
 				}
 			}
 			ops = append(ops, op)
+			if o.Rounds && (i+1)%roundLen == 0 && i+1 < n {
+				ops = append(ops, Op{Kind: "barrier"})
+			}
 			switch {
 			case resize == 1 && rng.Intn(2) == 0:
 				ops = append(ops, Op{Kind: "set", K: 1000 + t*100 + i, V: g.newVal()}) // fresh key: pushes growth
@@ -89,6 +94,53 @@ func genConcCase(rng *simrt.Rng, o *ConcOpts) *ConcCase {
 			}
 		}
 		cc.Tasks = append(cc.Tasks, ops)
+	}
+	if o.Rounds {
+		// every task needs the same number of barriers; task 0 carries the clock advances, which
+		// land on / around the deadlines (ExpD) or are a few ticks
+		for _, t := range cc.Tasks {
+			nb := 0
+			for _, op := range t {
+				if op.Kind == "barrier" {
+					nb++
+				}
+			}
+			if nb > rounds {
+				rounds = nb
+			}
+		}
+		for ti := range cc.Tasks {
+			nb := 0
+			for _, op := range cc.Tasks[ti] {
+				if op.Kind == "barrier" {
+					nb++
+				}
+			}
+			for ; nb < rounds; nb++ {
+				cc.Tasks[ti] = append(cc.Tasks[ti], Op{Kind: "barrier"})
+			}
+		}
+		for i := range cc.Tasks[0] {
+			if cc.Tasks[0][i].Kind == "barrier" {
+				var d int64
+				switch rng.Intn(5) {
+				case 0:
+					d = cfg.ExpD
+				case 1:
+					d = cfg.ExpD - 1
+				case 2:
+					d = cfg.ExpD / 2
+				case 3:
+					d = cfg.ExpD + int64(rng.Intn(3))
+				default:
+					d = int64(1+rng.Intn(5)) << 30
+				}
+				if d < 1 {
+					d = 1
+				}
+				cc.Tasks[0][i].D = d
+			}
+		}
 	}
 	return cc
 }
